@@ -340,3 +340,130 @@ _run_c20b = run
 def run(ctx):
     _run_c20b(ctx)
     ctx.guard(r20_3)
+
+
+# ------------------------------------------------------------------------------------------------ R20.4
+def r20_4(ctx):
+    """Row independence of the operators ForwardSDE derives (the g dg v Milstein term in its default, diagonal and additive
+    forms, both Levy-area Jacobian sums, g_prod, f_and_g_prod): evaluated from their own bodies on index-level tensors with
+    a row-wise user SDE.  Autograd is modelled by its dependency structure only: a Jacobian-vector or vector-Jacobian
+    product is an opaque function, per output entry, of exactly those entries of outputs / cotangents / tangents whose
+    rows are linked through the differentiated values -- which is all row independence needs.  Sizes include a single
+    state channel and a single noise channel (fast paths and broadcasting live where a dimension is 1)."""
+    from fractions import Fraction
+    from .. import nf
+    from ..nf import Rat
+    from . import c17, solvers
+    from .c02 import user_sde_obj
+    from ..interp import Closure, Intrinsic, Obj, SimRaise
+    rep, model = ctx.rep, ctx.model
+    rep.rule("R20.4", "the operators ForwardSDE derives (Milstein term in every form, Levy-area Jacobian sums, products), from "
+                      "their own bodies on index-level tensors with a row-wise SDE: output row b depends on input row b only")
+    ST = c17.ST
+    dom = solvers.Domains(model)
+    fwd = model.cls(c17.BASE_SDE, "ForwardSDE")
+    rep.analysed(fwd.methods["__init__"])
+
+    def sym_tensor(name, shape):
+        import itertools
+        return ST(shape, {ix: _row_sym(name, ix[0], "_".join(map(str, ix[1:]))) for ix in itertools.product(*[range(s) for s in shape])})
+
+    def rowwise(name, out_cols):
+        import itertools
+
+        def f(it, a, k, n, fi):
+            t, y = a[0], a[1]
+            data = {}
+            for r in range(y.shape[0]):
+                key = [y.data[ix] for ix in sorted(y.data) if ix[0] == r]
+                for c in itertools.product(*[range(x) for x in out_cols]):
+                    data[(r,) + c] = nf.fn(f"{name}{list(c)}", t, *key)
+            return ST((y.shape[0],) + tuple(out_cols), data)
+        return f
+
+    class H(c17.IndexHooks):
+        def on_call(self, interp, callee, args, kwargs, node, fi):
+            cfi = getattr(callee, "fi", None)
+            if isinstance(callee, Closure) and cfi is not None and cfi.name in ("vjp", "jvp") and cfi.module.relpath.endswith("misc.py"):
+                outs = kwargs.get("outputs", args[0] if args else None)
+                ins = kwargs.get("inputs", args[1] if len(args) > 1 else None)
+                g_ = kwargs.get("grad_outputs" if cfi.name == "vjp" else "grad_inputs", args[2] if len(args) > 2 else None)
+                single_out = isinstance(outs, ST)
+                outs_l = [outs] if single_out else list(outs)
+                ins_l = [ins] if isinstance(ins, ST) else list(ins)
+                g_l = [g_] if isinstance(g_, ST) else list(g_)
+                if not all(isinstance(x, ST) for x in outs_l + ins_l + g_l):
+                    raise AnalysisError("R20.4: autograd call on values that are not index-level tensors", where=astq.loc(fi, node))
+                if cfi.name == "vjp":
+                    res = []
+                    for x in ins_l:
+                        data = {}
+                        for ix, xv in x.data.items():
+                            dep = [o.data[j] * c.data[j] for o, c in zip(outs_l, g_l) for j in o.data
+                                   if nf.all_atoms(Rat.lift(xv)) & nf.all_atoms(Rat.lift(o.data[j]))]
+                            data[ix] = nf.fn("VJP", xv, *dep) if dep else Rat.const(0)
+                        res.append(ST(x.shape, data))
+                    return tuple(res)
+                res = []
+                for o in outs_l:
+                    data = {}
+                    for j, ov in o.data.items():
+                        dep = [tv for x, tn in zip(ins_l, g_l) for ix, tv in tn.data.items()
+                               if nf.all_atoms(Rat.lift(x.data[ix])) & nf.all_atoms(Rat.lift(ov))]
+                        data[j] = nf.fn("JVP", ov, *dep) if dep else Rat.const(0)
+                    res.append(ST(o.shape, data))
+                return tuple(res)
+            return c17.IndexHooks.on_call(self, interp, callee, args, kwargs, node, fi)
+    n = 0
+    for nt_name in ("diagonal", "scalar", "additive", "general"):
+        for (B, d, m) in ((3, 2, 2), (3, 1, 1), (2, 2, 1)):
+            if nt_name == "diagonal":
+                m = d
+            if nt_name == "scalar":
+                m = 1
+            it = c17._index_interp(model)
+            it.hooks = H()
+            g_cols = (d,) if nt_name == "diagonal" else (d, m)
+            user = user_sde_obj(dom.noise_types[nt_name])
+            user.attrs["f"] = Intrinsic("user.f", rowwise("F", (d,)), params=["t", "y"])
+            user.attrs["g"] = Intrinsic("user.g", rowwise("G", g_cols), params=["t", "y"])
+            for k in ("f_and_g", "g_prod", "f_and_g_prod", "h"):
+                user.attrs.pop(k, None)
+            obj = it.instantiate(fwd, [user], {})
+            t, y = nf.sym("t", True), sym_tensor("y", (B, d))
+            v = sym_tensor("v", (B, m))
+            a_ = sym_tensor("a", (B, m, m))
+            ops = [("g_prod", [t, y, v]), ("f_and_g_prod", [t, y, v]), ("g_prod_and_gdg_prod", [t, y, v, sym_tensor("w", (B, m))]),
+                   ("dg_ga_jvp_column_sum", [t, y, a_])]
+            for op, args in ops:
+                construct = f"{fwd.key}::R20.4::{op}::{nt_name}::B={B},d={d},m={m}"
+                try:
+                    slot = it.getattr(obj, op)
+                    out = it.call(slot, args, {})
+                except SimRaise as e:
+                    raise AnalysisError(f"R20.4: ForwardSDE.{op} ({nt_name}, B={B}, d={d}, m={m}) raises {e.exc_name}: {e.message}",
+                                        where=astq.loc(fwd.methods["__init__"]))
+                outs = [o for o in (out if isinstance(out, (tuple, list)) else (out,)) if isinstance(o, ST)]
+                bad = []
+                for o in outs:
+                    if o.shape[0] != B:
+                        bad.append(f"an output has shape {o.shape}: the batch axis is lost")
+                        continue
+                    for ix, val in o.data.items():
+                        others = sorted(_rows_of(val) - {ix[0]})
+                        if others:
+                            bad.append(f"entry {list(ix)} depends on row(s) {others} of the inputs")
+                            break
+                n += 1
+                rep.check(not bad, "R20.4", astq.loc(getattr(slot, "fi", None) or fwd.methods["__init__"]), construct,
+                          f"ForwardSDE.{op} for {nt_name} noise (batch {B}, state {d}, noise {m}): {'; '.join(bad[:2])}: batch rows "
+                          f"are not independent", "row b of every output depends on row b only")
+    ctx.floor("R20.4", 40)
+
+
+_run_c20c = run
+
+
+def run(ctx):
+    _run_c20c(ctx)
+    ctx.guard(r20_4)
